@@ -46,6 +46,8 @@ def prop(case):
     st_pos = [b.s_pos(n) for n in b.st]
     # documented order: ports, then flip-flops, then latches
     nio = len(c.io_nodes)
+    if [id(n) for n in c.s_nodes] != [id(n) for n in b.s_order()]:
+        raise Violation(f's_nodes = {[n.name for n in c.s_nodes]}, documented order (ports as listed, flip-flops, latches) is {[n.name for n in b.s_order()]}')
     kinds = ['D' if 'dff' in c.s_nodes[i].kind.lower() else 'L' for i in range(nio, s_len)]
     if kinds != sorted(kinds) or sorted(st_pos) != list(range(nio, s_len)):
         raise Violation(f's_nodes order is not ports, flip-flops, latches: {kinds} {st_pos}')
